@@ -40,18 +40,34 @@ Inductive mutability : Type :=
 | CannotMutateExpr.
 
 Section Model.
-(* [fix_ = false]: the code as it is.  [fix_ = true]: the proposed repair
-   (`through_pointer`): at the three places where a pointer is dereferenced (Expr::Deref, and
-   Expr::Index / Expr::Member whose source has a pointer type) a Mutable answer is replaced by
-   ImmutableRef when the TYPE of the dereferenced expression is an immutable pointer. *)
-Variable fix_ : bool.
+(* Typing oracles:
+     pk e    pointer kind of the type of e (outermost level): None / Some false (`^`) / Some true (`^mut`)
+     deep e  when the type of e is a pointer: the kinds of the FURTHER pointer levels below the
+             outermost one (`^mut ^[3]i32` -> [false]); indexing and member access auto-dereference
+             all of them, an explicit `^` only the outermost one.
+   Variants of the code:
+     fix_ = false                the code before /repo 1af504c
+     fix_ = true, fix2_ = false  /repo 1af504c (`through_pointer`, outermost level only): at the three
+                                 places where a pointer is dereferenced (Expr::Deref, Expr::Index /
+                                 Expr::Member whose source has a pointer type) a Mutable answer becomes
+                                 ImmutableRef when the TYPE of the dereferenced expression is `^T`
+     fix_ = true, fix2_ = true   proposed: Index / Member look at every auto-dereferenced level *)
+Variable fix_ fix2_ : bool.
 Variable pk : path -> option bool.
+Variable deep : path -> list bool.
 
-Definition through_pointer (p : path) (res : mutability) : mutability :=
+Definition deep_immut (p : path) : bool :=
+  match pk p with Some true => existsb negb (deep p) | _ => false end.
+
+Definition through_pointer (auto_deref : bool) (p : path) (res : mutability) : mutability :=
   if fix_ then
-    match res, pk p with
-    | Mutable, Some false => ImmutableRef
-    | _, _ => res
+    match res with
+    | Mutable =>
+        match pk p with
+        | Some false => ImmutableRef
+        | _ => if fix2_ && auto_deref && deep_immut p then ImmutableRef else res
+        end
+    | _ => res
     end
   else res.
 
@@ -61,8 +77,8 @@ Fixpoint get_mutability (e : path) (assignment deref : bool) {struct e} : mutabi
   match e with
   | PLit => Mutable
   | PRef m _ => if m then Mutable else ImmutableRef
-  | PDeref p => through_pointer p (get_mutability p assignment true)
-  | PIndex p => through_pointer p (get_mutability p assignment (deref || is_pointer p))
+  | PDeref p => through_pointer false p (get_mutability p assignment true)
+  | PIndex p => through_pointer true p (get_mutability p assignment (deref || is_pointer p))
   | PBlock p => get_mutability p assignment deref
   | PLocal _ mutable init =>
       if deref then
@@ -86,7 +102,7 @@ Fixpoint get_mutability (e : path) (assignment deref : bool) {struct e} : mutabi
         | Some false => ImmutableRef
         | _ => Mutable                     (* .map(|(m, _)| m).unwrap_or(true) *)
         end
-      else through_pointer p (get_mutability p assignment (deref || is_pointer p))
+      else through_pointer true p (get_mutability p assignment (deref || is_pointer p))
   | PCall _ => if deref then Mutable else CannotMutateExpr
   | PCast _ =>
       if deref then
